@@ -55,7 +55,30 @@ def run(ctx):
         oo = [x for ff, x, k2, r2 in field_writes(prog, 'Edge::order_only_deps_', [f])]
         ctx.check('C10.P1', not oo, f.name, 'splice-touches-order-only-count', f.loc,
                   'a dependency loader never changes order_only_deps_')
-    ctx.floor('C10.P1', 2)
+    # the range a loader reports back (it is what the scan looks at next: stat, dirty state, ordering) starts where the
+    # discovered nodes were put: its begin is what inputs_.insert() / PreallocateSpace() returned, or is computed from
+    # order_only_deps_ - never from end() alone
+    nr = 0
+    for f in prog.functions.values():
+        if f.cls != 'ImplicitDepLoader' and not f.name.startswith('ImplicitDepLoader::'):
+            continue
+        for e in f.events():
+            cands = []
+            if e['k'] == 'ret':
+                cands = [x for x in walk(e.get('e')) if x.get('k') in ('ctor', 'call') and 'EdgeInputsRange' in (x.get('name') or x.get('ty') or dstr(x)) and len(x.get('args') or []) == 3]
+            for c in cands:
+                nr += 1
+                b = dstr(deep_resolve(f, c['args'][1])) + ' <- ' + ' | '.join(dstr(o) for v_ in walk(c['args'][1]) if v_.get('k') == 'var' for o in origins(f, v_))
+                ok = ('Edge::inputs_' in b and '.insert(' in b.replace('::insert', '.insert')) or 'insert' in b or 'PreallocateSpace' in b or 'Edge::order_only_deps_' in b
+                ctx.check('C10.P1', ok, f.name, 'reported-range:not-where-inserted', f.where(e),
+                          'the range %s reports for the follow-up scan begins at the insertion point (`%s`)' % (f.name, b[:90]))
+    pa = prog.fn('ImplicitDepLoader::PreallocateSpace')
+    for e in pa.events('ret'):
+        d = dstr(e.get('e'))
+        ctx.check('C10.P1', 'Edge::order_only_deps_' in d and 'count' in d, pa.name, 'PreallocateSpace:returned-position', pa.where(e),
+                  'PreallocateSpace returns the first of the slots it made, in front of the order-only inputs: `%s`' % d[:90])
+    ctx.check('C10.P1', nr >= 2, 'ImplicitDepLoader', 'reported-range:sites', 'src/graph.cc', '%d reported ranges examined' % nr)
+    ctx.floor('C10.P1', 5)
     ctx.table('C10.P1.exempt', SPLICE_EXEMPT)
 
     # ---- P3: everything that was recorded is spliced -----------------------------------------
